@@ -136,6 +136,8 @@ WFClass(i) == LET c == cls[i] IN
   \* = default on a member that would be deleted, declared inaccessible, etc. is legal; but a
   \* defaulted destructor that is deleted while virtual in a base is ill-formed
   /\ (c.dt = "default" /\ (\E b \in Bases(i) : cls[b].dtvirt) => ~ImplDtDeleted(i))
+  \* a user-provided destructor must be able to destroy every base and member
+  /\ (c.dt = "user" => ~ImplDtDeleted(i))
 
 Init == cls = <<>> /\ done = FALSE
 
